@@ -5,7 +5,7 @@ use crate::plan::{Op, Q};
 use dust_dds::infrastructure::error::DdsError;
 use std::cell::RefCell;
 
-#[derive(Clone, Debug, PartialEq, Eq, PartialOrd, Ord)]
+#[derive(Clone, Debug, PartialEq, Eq, PartialOrd, Ord, Hash)]
 pub enum E {
     Error,
     Unsupported,
